@@ -181,6 +181,36 @@ fn oracle(
             if a != b {
                 let k = a.iter().zip(b.iter()).position(|(x, y)| x != y).unwrap_or(a.len().min(b.len()));
                 run.fail("reload-differs", &op, &format!("{} rows; first difference at sorted row {k}: {:?}", b.len(), b.get(k)), &format!("{} rows; {:?}", a.len(), a.get(k)));
+                // what kind of difference: keys = all columns but the FLOAT4 ones; group = the key
+                // without its last column when the key has several (blueprint: the bucket)
+                let nk = types.iter().filter(|t| type_width(t) == Some(8)).count().max(1).min(b.first().map(|r| r.len()).unwrap_or(1));
+                use std::collections::{BTreeMap as M, BTreeSet as S};
+                let saved: M<Vec<u64>, Vec<u64>> = b.iter().map(|r| (r[..nk].to_vec(), r[nk..].to_vec())).collect();
+                let got: M<Vec<u64>, Vec<u64>> = a.iter().map(|r| (r[..nk.min(r.len())].to_vec(), r[nk.min(r.len())..].to_vec())).collect();
+                let lost: Vec<&Vec<u64>> = saved.keys().filter(|k| !got.contains_key(*k)).collect();
+                let added = got.keys().filter(|k| !saved.contains_key(*k)).count();
+                let changed = saved.iter().filter(|(k, v)| got.get(*k).map(|w| w != *v).unwrap_or(false)).count();
+                if !lost.is_empty() {
+                    if nk > 1 {
+                        let groups_got: S<Vec<u64>> = got.keys().map(|k| k[..nk - 1].to_vec()).collect();
+                        let whole = lost.iter().filter(|k| !groups_got.contains(&k[..nk - 1].to_vec())).count();
+                        if whole > 0 {
+                            run.fail("reload-loses-buckets", &op, &format!("{} rows", saved.len()), &format!("{whole} rows of buckets that are missing entirely, e.g. {:?}", lost[0]));
+                        }
+                        if whole < lost.len() {
+                            let ex = lost.iter().find(|k| groups_got.contains(&k[..nk - 1].to_vec())).unwrap();
+                            run.fail("reload-loses-edges", &op, &format!("{} rows", saved.len()), &format!("{} rows missing from buckets that are still present, e.g. {:?}", lost.len() - whole, ex));
+                        }
+                    } else {
+                        run.fail("reload-loses-rows", &op, &format!("{} rows", saved.len()), &format!("{} keys missing, e.g. {:?}", lost.len(), lost[0]));
+                    }
+                }
+                if added > 0 {
+                    run.fail("reload-adds-rows", &op, &format!("{} rows", saved.len()), &format!("{added} keys that were never saved"));
+                }
+                if changed > 0 {
+                    run.fail("reload-changes-values", &op, "bit-identical values", &format!("{changed} keys with other values"));
+                }
             }
             if typed_equal == Some(false) {
                 run.fail("reload-differs-typed", &op, "same keys and bit-identical values", "typed comparison differs");
@@ -245,8 +275,17 @@ struct Ctx {
     memory: BTreeMap<(String, String), Vec<Vec<u64>>>,
     /// large tables: the model is asked for the file only (`saveb`), the reload is checked by the oracle
     big: bool,
+    /// very large tables judged by the oracle only (no line for the model driver)
+    noline: bool,
 }
 impl Ctx {
+    fn emit(&mut self, op: &str, ans: &str) {
+        if self.noline {
+            self.run.count("large table judged by the oracle only (no model line)");
+        } else {
+            self.run.line(op, ans);
+        }
+    }
     fn here(&self) -> String {
         self.scr.dir.to_string_lossy().into_owned()
     }
@@ -323,7 +362,7 @@ fn case_profile_obj(c: &mut Ctx, p: Profile, typed: Vec<(Bucket, Edge, u32, u32)
     over_count(c, "blueprint", &before, &file);
     let loaded = if file.is_some() { catch(|| profile_load()) } else { None };
     let reloaded = loaded.as_ref().map(|l| profile_rows(l));
-    c.run.line(&op, &answer(c.big, &file, &reloaded));
+    c.emit(&op, &answer(c.big, &file, &reloaded));
     c.run.count(&format!("blueprint {}", size_class(orig.len())));
     for r in &typed {
         let k = match r.1 {
@@ -382,7 +421,7 @@ fn case_metric(c: &mut Ctx, rows: &[(u64, u32)], decl: &(Vec<String>, Vec<String
         _ => None,
     };
     let reloaded = loaded.as_ref().map(|l| metric_rows(l));
-    c.run.line(&op, &answer(c.big, &file, &reloaded));
+    c.emit(&op, &answer(c.big, &file, &reloaded));
     c.run.count(&format!("metric {}", size_class(orig.len())));
     if let Some(s) = street {
         c.run.count(&format!("metric file=metric.{s}"));
@@ -420,7 +459,7 @@ fn case_lookup(c: &mut Ctx, map: &BTreeMap<Isomorphism, Abstraction>, decl: &(Ve
         _ => None,
     };
     let reloaded = loaded.as_ref().map(|l| lookup_rows(l));
-    c.run.line(&op, &answer(c.big, &file, &reloaded));
+    c.emit(&op, &answer(c.big, &file, &reloaded));
     c.run.count(&format!("lookup {}", size_class(orig.len())));
     if let Some(s) = street {
         c.run.count(&format!("lookup file=isomorphism.{s}"));
@@ -470,14 +509,37 @@ fn case_decomp_file(c: &mut Ctx, map: BTreeMap<Abstraction, Histogram>, decl: &(
     let op = format!("saveb transitions {} {}", orig.len(), flat(&orig));
     let file = if saved.is_some() { pick(&files, c.keep, Some(expected.clone())).filter(|f| f.0 == expected) } else { None };
     over_count(c, "transitions", &before, &file);
-    c.run.line(&op, &answer(true, &file, &None));
+    c.emit(&op, &answer(true, &file, &None));
     c.run.count(&format!("transitions {}", size_class(orig.len())));
     if !orig.is_empty() {
         c.run.distinct(&("transitions", &orig));
     }
     match &file {
         None => c.run.fail(if saved.is_some() { "saved-file-not-under-current-directory" } else { "save-fails" }, &op[..op.len().min(300)], &format!("pgcopy/{expected} under the current working directory"), &format!("panic={} files={:?}", saved.is_none(), files.iter().map(|f| &f.0).collect::<Vec<_>>())),
-        Some((_, bytes)) => file_oracle(&mut c.run, &op, decl, &ROLES, &orig, bytes),
+        Some((name, bytes)) => {
+            file_oracle(&mut c.run, &op, decl, &ROLES, &orig, bytes);
+            // Decomp::load rescales the weights, so only the (prev, next) pairs can be compared: load,
+            // save again, read the pairs back with the independent reader
+            let street = name.strip_prefix("transitions.").and_then(street_of_suffix);
+            if let (Some(street), true) = (street, c.big && street != Some(Street::Rive)) {
+                c.run.spec_checked += 1;
+                let path = c.scr.dir.join("pgcopy").join(name);
+                let again = catch(move || {
+                    decomp_load(street).save();
+                });
+                match again {
+                    None => c.run.fail("load-of-saved-file-panics", &op[..op.len().min(300)], "the saved transitions", "panic"),
+                    Some(()) => {
+                        let pairs = |rows: Vec<Vec<u64>>| -> std::collections::BTreeSet<(u64, u64)> { rows.into_iter().map(|r| (r[0], r[1])).collect() };
+                        let want = pairs(orig.clone());
+                        let got = pg_read(&std::fs::read(&path).expect("resaved")).map(|rows| pairs(rows.into_iter().map(|r| r.iter().map(|f| f.bits()).collect()).collect())).unwrap_or_default();
+                        if got != want {
+                            c.run.fail("transitions-reload-loses-rows", &op[..op.len().min(300)], &format!("{} (prev, next) pairs", want.len()), &format!("{} pairs, {} of the saved ones missing", got.len(), want.difference(&got).count()));
+                        }
+                    }
+                }
+            }
+        }
     }
 }
 
@@ -538,13 +600,13 @@ fn main() {
     quiet_panics();
     let scr = Scratch::new(&out);
     let other = Scratch::open(&out, "scratch-b");
-    let mut c = Ctx { run, scr, keep: false, other, alternate: false, memory: BTreeMap::new(), big: false };
+    let mut c = Ctx { run, scr, keep: false, other, alternate: false, memory: BTreeMap::new(), big: false, noline: false };
     let deep = a.thorough();
     let nrand = if deep { 20000 } else { 1500 };
     let big = if deep { 40000 } else { 4000 };
     let nseq = if deep { 60 } else { 8 };
     c.run.rule = format!(
-        "real save()+load() in a scratch directory for blueprint/metric/isomorphism tables: empty, one row, every edge kind x every street x every special float pattern (±0, ±inf, quiet/signalling NaN payloads, MAX, MIN_POSITIVE, subnormals, REGRET_MIN), {nrand} random tables of 0..60 rows per kind, 400+ blueprints whose values are reached by add_regret/add_policy from zero (not through the setters that load() uses), with cumulative regrets far beyond ±3e5; the EXPECTED table is always the harness's own record of the values given / tracked in f32 arithmetic, never read back from the object under test; tables of thousands of rows (blueprint {big} rows; metric 8128/10296/14196 rows = the flop/turn/preflop file names; lookup per street), keys with the sign bit set; the file bytes (hex up to {HEX_LIMIT} bytes, else length+FNV-1a) and the reloaded content are compared with the Lean model; plus {nseq} SEQUENCES of 12 saves per table kind (transitions too, file only) without clean-up, half of them into one directory and half alternating between TWO working directories inside the same process (the file must appear under the current directory, the other directory must stay untouched, and earlier saves must still load correctly on return) (large, small, large, same size, empty, one row, ... so that a save lands over a longer / shorter / equal-length / identical file); after EVERY save the complete file (length and all bytes) must equal an independently written encoding of the table just saved and pass a strict COPY reader that requires end-of-file right after the trailer; plus large tables (lookup to 322,638 rows = 8 MiB; metric, blueprint, transitions) sized so that a row's field count or the trailer straddles / follows a multiple of 8 KiB and (lookup; all kinds in the thorough tier) 1 MiB, compared by length + checksum; non-trivial = at least one row; distinct by table content");
+        "real save()+load() in a scratch directory for blueprint/metric/isomorphism tables: empty, one row, every edge kind x every street x every special float pattern (±0, ±inf, quiet/signalling NaN payloads, MAX, MIN_POSITIVE, subnormals, REGRET_MIN), {nrand} random tables of 0..60 rows per kind, 400+ blueprints whose values are reached by add_regret/add_policy from zero (not through the setters that load() uses), with cumulative regrets far beyond ±3e5; the EXPECTED table is always the harness's own record of the values given / tracked in f32 arithmetic, never read back from the object under test; tables of thousands of rows (blueprint {big} rows; metric 8128/10296/14196 rows = the flop/turn/preflop file names; lookup per street), keys with the sign bit set; the file bytes (hex up to {HEX_LIMIT} bytes, else length+FNV-1a) and the reloaded content are compared with the Lean model; plus {nseq} SEQUENCES of 12 saves per table kind (transitions too, file only) without clean-up, half of them into one directory and half alternating between TWO working directories inside the same process (the file must appear under the current directory, the other directory must stay untouched, and earlier saves must still load correctly on return) (large, small, large, same size, empty, one row, ... so that a save lands over a longer / shorter / equal-length / identical file); after EVERY save the complete file (length and all bytes) must equal an independently written encoding of the table just saved and pass a strict COPY reader that requires end-of-file right after the trailer; plus large tables (lookup to 322,638 rows = 8 MiB; metric, blueprint, transitions) sized so that a row's field count or the trailer straddles / follows a multiple of 8 KiB and (lookup; all kinds in the thorough tier) 1 MiB, compared by length + checksum; plus MANY-ROW round trips judged by the oracle through the harness's own record (rows lost / edges lost / values changed): blueprints of 65535, 65536, 65537, 70,001, 131,071, 131,073 and 140,000 rows with bucket sizes 3, 5, 7, 13 and mixed (not divisors of 65536), a 70,003-entry metric, a 65,539- and a 322,639-row lookup, a 70k-row transitions table (its (prev,next) pairs after load+save); non-trivial = at least one row; distinct by table content");
 
     let dp = declared::<Profile>();
     let dm = declared::<Metric>();
@@ -795,6 +857,82 @@ fn main() {
         let m = any_decomp(&mut rng, Street::Flop, n, 4096);
         case_decomp_file(&mut c, m, &dt);
     }
+
+    // ---------------- many rows: row counts at and beyond 65536·k with bucket sizes that do not divide
+    // 65536 (a loader that decodes fixed batches of rows must not lose the part of a bucket on the
+    // other side of a batch boundary); >= 70k rows for the other tables too
+    let edges = all_edges();
+    let mut profile_of = |rng: &mut Rng, n: usize, sizes: &[usize]| -> Vec<(Bucket, Edge, u32, u32)> {
+        let mut rows = Vec::with_capacity(n);
+        let mut seen = std::collections::HashSet::new();
+        let mut i = 0;
+        while rows.len() < n {
+            let b = any_bucket(rng);
+            if !seen.insert((u64::from(b.0), u64::from(b.1), u64::from(b.2))) {
+                continue; // distinct buckets, so that the row count is exact
+            }
+            let k = sizes[i % sizes.len()].min(edges.len());
+            i += 1;
+            let off = rng.below(edges.len() as u64) as usize;
+            for j in 0..k {
+                if rows.len() < n {
+                    rows.push((b, edges[(off + j) % edges.len()], any_f32(rng), any_f32(rng)));
+                }
+            }
+        }
+        rows
+    };
+    // (rows, bucket sizes, send a line to the model?)
+    let mut many: Vec<(usize, Vec<usize>, bool)> = vec![
+        (65535, vec![3], false),
+        (65536, vec![5], false),
+        (65537, vec![7], true),
+        (70_001, vec![13], false),
+        (131_071, vec![2, 3, 5, 7, 11, 13, 1], false),
+        (131_073, vec![3], false),
+        (140_000, vec![7, 5], false),
+    ];
+    if deep {
+        many.extend([(65536 * 3 + 1, vec![3, 13], false), (65536 * 4 - 1, vec![5], false), (300_000, vec![17, 4, 9], false), (65536, vec![4], false)]);
+    }
+    for (n, sizes, line) in many {
+        let rows = profile_of(&mut rng, n, &sizes);
+        c.noline = !line;
+        c.run.count(&format!("blueprint many rows: {} rows, bucket sizes {:?}", n, sizes));
+        case_profile(&mut c, &rows, &dp);
+    }
+    c.noline = true;
+    {
+        let n = 70_003;
+        let mut m = BTreeMap::new();
+        while m.len() < n {
+            m.insert(rng.next(), any_f32(&mut rng));
+        }
+        let rows: Vec<_> = m.into_iter().collect();
+        case_metric(&mut c, &rows, &dm);
+        // lookup: 322,639 rows above; one more just beyond 65536
+        let mut m = BTreeMap::new();
+        while m.len() < 65_539 {
+            m.insert(any_isomorphism(&mut rng, Street::Rive), any_abstraction(&mut rng, Some(Street::Rive)));
+        }
+        case_lookup(&mut c, &m, &dl);
+        // transitions: >= 70k (prev, next) rows; prev codes are raw (the 12-bit index gives only 4096)
+        let mut m: BTreeMap<Abstraction, Histogram> = BTreeMap::new();
+        let mut total = 0;
+        while total < 70_000 {
+            let from = Abstraction::from((1u64 << 56) | (rng.next() >> 8));
+            let k = 1 + rng.below(30) as usize;
+            let support: Vec<Abstraction> = (0..k).map(|_| Abstraction::from((Street::Turn, rng.below(144) as usize))).collect();
+            let v: Vec<Abstraction> = (0..2 * k).map(|_| support[rng.below(k as u64) as usize]).collect();
+            let h = Histogram::from(v);
+            if !m.contains_key(&from) {
+                total += h.n();
+                m.insert(from, h);
+            }
+        }
+        case_decomp_file(&mut c, m, &dt);
+    }
+    c.noline = false;
     c.big = false;
     c.keep = false;
     c.run.exhaustive = false;
